@@ -185,4 +185,33 @@ def insertedWith (k : Str) (r : Req) : Bool := r.inserted && r.key == some k
 /-- requests answered "authorized" that were subject to the one-time rule for key `k` -/
 def authorizedWith (k : Str) (r : Req) : Bool := r.out == .authorized && r.key == some k
 
+/-! ## a handler that authorizes one token twice
+
+  /repo/api/ssh.go `SSHSign` with an identity CSR in the body: the handler authorizes the token for the SSH certificate
+  (`a`: method SSHSign, the one-time rule applies), signs it, and then authorizes the *same* token a second time for the
+  X.509 identity certificate under `authority.NewContextWithSkipTokenReuse` (`b`: method SignIdentity, `skip`, no
+  record). `b` runs only after `a` was answered "authorized" (an error of `a` returns from the handler). It is the only
+  caller of `NewContextWithSkipTokenReuse` in /repo (stage handlers drives it through the real router). -/
+
+structure HReq where
+  a : Req
+  b : Req
+  identity : Bool        -- the body carries an identity CSR
+  deriving Repr, DecidableEq
+
+def hstep (g : G) (h : HReq) : G × HReq :=
+  if h.a.out = .pending then ((step g h.a).1, { h with a := (step g h.a).2 })
+  else if h.a.out = .authorized ∧ h.identity = true then ((step g h.b).1, { h with b := (step g h.b).2 })
+  else (g, h)
+
+def hrestartL (h : HReq) : HReq := { h with a := restartL h.a, b := restartL h.b }
+
+def hmachine : Machine G HReq := { step := hstep, restartG := restartG, restartL := hrestartL }
+
+/-- a request that has not arrived: the first authorization under the one-time rule, the second one exempt -/
+def HReq.wf (h : HReq) : Prop := h.a.fresh ∧ h.b.fresh ∧ h.b.inp.skip = true
+
+/-- the HTTP request got a certificate (SSH or identity) on a token recorded under `k` -/
+def served (k : Str) (h : HReq) : Bool := (h.a.out == .authorized || h.b.out == .authorized) && h.a.key == some k
+
 end Verif.OTT
